@@ -57,7 +57,15 @@ const REGEX_ATTR: &str = "regex";
 pub fn generate(input: TokenStream) -> TokenStream {
     debug!("Reading input token streams");
 
-    let mut item: ItemEnum = syn::parse2(input).expect("Logos can only be derived for enums");
+    // rustc recovers from many syntax errors inside an enum (a forgotten comma between
+    // variants, `A(dyn)`, ...) and still runs the derive on the item: report, never panic.
+    let mut item: ItemEnum = match syn::parse2(input) {
+        Ok(item) => item,
+        Err(err) => {
+            let message = format!("Logos can only be derived for enums: {err}");
+            return syn::Error::new(err.span(), message).to_compile_error();
+        }
+    };
     let item_span = item.span();
 
     let name = &item.ident;
